@@ -70,7 +70,10 @@ def sp_matmul(ndarray, affine, shape):
         inner = ndarray.shape[-1]
 
         affine_index = np.arange(affine.size).reshape(affine.shape)
-        dim = len(affine.shape)
+        batch = np.broadcast_shapes(ndarray.shape[:-2], affine.shape[:-2])
+        ndarray = np.broadcast_to(ndarray, batch + ndarray.shape[-2:])
+        affine_index = np.broadcast_to(affine_index, batch + affine.shape[-2:])
+        dim = len(affine_index.shape)
         axes = list(range(dim-2)) + [dim-1, dim-2]
         index = np.transpose(np.tile(affine_index, row), axes=axes).flatten()
         index_rep = size // (len(index)//inner)
@@ -106,6 +109,9 @@ def sp_lmatmul(ndarray, affine, shape):
         inner = affine.shape[-1]
 
         affine_index = np.arange(affine.size).reshape(affine.shape)
+        batch = np.broadcast_shapes(ndarray.shape[:-2], affine.shape[:-2])
+        ndarray = np.broadcast_to(ndarray, batch + ndarray.shape[-2:])
+        affine_index = np.broadcast_to(affine_index, batch + affine.shape[-2:])
         index = np.tile(affine_index, col).flatten()
         index_rep = size // (len(index)//inner)
         if index_rep > 1:
